@@ -59,7 +59,7 @@ class TlcResult:
         self.depth = int(m.group(1)) if m else 0
         self.completed = "Model checking completed. No error has been found." in out
         self.inv_violated = re.findall(r"Error: Invariant (\S+) is violated", out)
-        self.prop_violated = ("Temporal properties were violated" in out
+        self.prop_violated = (re.search(r"Temporal propert(y|ies) .*violated", out) is not None
                               or re.findall(r"Error: Action property (\S+) is violated", out) != [])
         self.deadlock = "Error: Deadlock reached" in out
         self.post_false = re.search(r"[Pp]ostcondition .* (is false|violated)", out) is not None or \
